@@ -879,9 +879,17 @@ Definition viol_has_sound (c : kcase) : bool :=
   | _ => false
   end.
 
+(* clause 9: get() returns something only for a key whose path exists in the settings (before or after the call) *)
+Definition viol_get_sound (c : kcase) : bool :=
+  match o_get c with
+  | Ok _ => negb (existsb (fun e => let '(p, _, _) := e in key_eqb p (c_key c)) (flat [] 0 (c_tree c) ++ flat [] 0 (o_after c))%list)
+  | _ => false
+  end.
+
 Definition viol_clause (n : nat) (c : kcase) : bool :=
   match n with
   | 1 => viol_unresolved c | 2 => viol_failed_changes c | 3 => viol_frame c | 4 => viol_set_get c | 5 => viol_has_sound c
+  | 9 => viol_get_sound c
   | _ => false
   end%nat.
 
@@ -890,7 +898,7 @@ Definition violations (n : nat) (cs : list kcase) : list Z := indices_where (vio
 (* one pass: per case  mismatch_kind + 10 * (bit mask of the violated clauses 1..5) *)
 Definition case_report (c : kcase) : Z :=
   let b (n : nat) (w : Z) := if viol_clause n c then w else 0%Z in
-  (Z.of_nat (case_mismatch c) + 10 * (b 1%nat 1 + b 2%nat 2 + b 3%nat 4 + b 4%nat 8 + b 5%nat 16))%Z.
+  (Z.of_nat (case_mismatch c) + 10 * (b 1%nat 1 + b 2%nat 2 + b 3%nat 4 + b 4%nat 8 + b 5%nat 16 + b 9%nat 256))%Z.
 Definition report (cs : list kcase) : list Z := map case_report cs.
 
 (* eval_entry cases *)
@@ -902,7 +910,8 @@ Definition e_mismatches (cs : list ecase) : list Z :=
 Record rcase := { r_atoms : list atom; r_shape : nat; r_obs : res pyval }.
 
 (* validate_steps cases *)
-Record vcase := { v_tree : tree; v_keys : list string; v_obs : option exn }.
+Record vcase := { v_tree : tree; v_keys : list string; v_obs : option exn;
+                  v_ran : option (option exn * nat) }.   (* the sweep itself, if it was run: outcome, models executed *)
 Definition v_mismatches (cs : list vcase) : list Z :=
   indices_where (fun c => negb (opt_exn_eqb (validate_steps (v_tree c) (v_keys c)) (v_obs c))) cs 0%Z.
 (* spec: an error iff some key is undeclared / belongs to a disabled model *)
@@ -910,8 +919,17 @@ Definition v_viol_silent (c : vcase) : bool :=      (* a bad key was accepted *)
   match v_obs c with None => negb (forallb (spec_step_ok (v_tree c)) (v_keys c)) | Some _ => false end.
 Definition v_viol_refused (c : vcase) : bool :=     (* all keys fine, yet refused *)
   match v_obs c with Some _ => forallb (spec_step_ok (v_tree c)) (v_keys c) | None => false end.
+(* "rejected before any pipeline runs": with a key the specification does not admit among the steps, the sweep
+   must end in an error and no model may have been executed *)
+Definition v_viol_ran (c : vcase) : bool :=
+  match v_ran c with
+  | None => false
+  | Some (r, calls) =>
+      if forallb (spec_step_ok (v_tree c)) (v_keys c) then false
+      else match r with None => true | Some _ => negb (Nat.eqb calls 0) end
+  end.
 Definition v_violations (n : nat) (cs : list vcase) : list Z :=
-  indices_where (match n with 1%nat => v_viol_silent | _ => v_viol_refused end) cs 0%Z.
+  indices_where (match n with 1%nat => v_viol_silent | 2%nat => v_viol_refused | _ => v_viol_ran end) cs 0%Z.
 
 (* literal values whose rendering is the text a user writes for them (scalar subset) *)
 Inductive lit := LInt (z : Z) | LDec (m e : Z) | LBool (b : bool) | LNone | LWord (s : string).
@@ -932,3 +950,48 @@ Definition render_lit (v : lit) : string :=
 (* well-formed literal values: a word must be a bare word (letters and underscores, not True / False / None) *)
 Definition lit_wf (v : lit) : bool :=
   match v with LWord s => bare_word s | _ => true end.
+
+(* ------------------------------------------------------------------------------------ literal values with sequences *)
+
+(* the values a user can write as a literal text: scalars, quoted strings, lists and tuples of those *)
+Inductive lval :=
+| LS (x : lit)
+| LQ (s : lstr)                 (* 'text' *)
+| LL (l : list lval)            (* [a, b, ...] *)
+| LT (l : list lval).           (* (a, b, ...)   (a,)   () *)
+
+Fixpoint joinl (l : list lstr) : lstr :=
+  match l with
+  | [] => []
+  | [x] => x
+  | x :: r => (x ++ ","%char :: " "%char :: joinl r)%list
+  end.
+
+Fixpoint rl (v : lval) : lstr :=
+  match v with
+  | LS x => list_ascii_of_string (render_lit x)
+  | LQ s => ("'"%char :: s ++ ["'"%char])%list
+  | LL l => ("["%char :: joinl (map rl l) ++ ["]"%char])%list
+  | LT l => ("("%char :: joinl (map rl l) ++ (match l with [_] => [","%char] | _ => [] end) ++ [")"%char])%list
+  end.
+
+Definition render_lval (v : lval) : string := string_of_list_ascii (rl v).
+
+Fixpoint lval_val (v : lval) : pyval :=
+  match v with
+  | LS x => lit_val x
+  | LQ s => VStr (string_of_list_ascii s)
+  | LL l => VList (map lval_val l)
+  | LT l => VTuple (map lval_val l)
+  end.
+
+(* well-formed: inside a sequence a word must be quoted; a quoted text holds no quote, backslash or newline *)
+Definition qtext_ok (s : lstr) : bool := no_char ("'"%char) s && no_char "\"%char s && no_char "010"%char s.
+
+Fixpoint lval_wf (inside : bool) (v : lval) : bool :=
+  match v with
+  | LS (LWord s) => negb inside && bare_word s
+  | LS _ => true
+  | LQ s => qtext_ok s
+  | LL l | LT l => forallb (lval_wf true) l
+  end.
